@@ -31,6 +31,8 @@ def build(contents, store_alg="SHA-256", size_class=0):
                       store_object("p", d(A)), "p", A))
     S.append(Scenario("store-existing-unreferenced", [store_object(None, d(A)), store_object("q", d(B))],
                       store_object("p", d(A)), "p", A))
+    S.append(Scenario("store-data-only-new", [store_object("q", d(B))], store_object(None, d(A)), None, A))
+    S.append(Scenario("store-data-only-existing", [store_object("q", d(A))], store_object(None, d(A)), None, A))
     S.append(Scenario("store-validated", [store_object("q", d(B))],
                       store_object("p", d(A), "sha224", contents.digest(A, "md5").upper(), "MD5", len(contents.by_tok[A])), "p", A))
     S.append(Scenario("store-invalid-checksum", [store_object("q", d(B))],
